@@ -32,7 +32,7 @@ ASSUMPTIONS = [
     "thorough tier audits merged states by executing all one-step extensions from two representatives",
     "error states are not expanded (violations are minimal histories)",
 ]
-BOUNDS = {"quick": {"depth": 5}, "thorough": {"depth": 7, "merge_audit_depth": 4}}
+BOUNDS = {"quick": {"depth": 5}, "thorough": {"depth": 6, "merge_audit_depth": 3}}
 
 SRC = '''
 from ptera import tooled
@@ -459,6 +459,13 @@ class System:
                     probs.append(f"{name} does not run its original code although no probe is active on it")
                 if I.leftover_captures(fn):
                     probs.append(f"{name}: capture counters left over {I.leftover_captures(fn)}")
+                try:
+                    from ptera.utils import is_tooled
+
+                    if is_tooled(fn):
+                        probs.append(f"{name} still counts as a tooled function (ptera.utils.is_tooled) although no probe is active on it")
+                except ImportError:
+                    pass
         if 9 not in active and w.h.__code__ is not w.orig["h"]:
             probs.append("the tooled function h does not run its tooled code although no probe is active on it")
         if not active:
